@@ -194,6 +194,12 @@ def body_inverse(case):
         b_r, e_r, u_r = beta[::-1].copy(), log_e[::-1].copy(), u[::-1].copy()
         if check_overlapping(lambda: taus.tau_energy(beta, log_e, u), lambda: other.tau_energy(b_r, e_r, u_r), case["preempt"], f"Taus.tau_energy ({n} events, {'two objects' if other is not taus else 'one object'})"):
             labels.add("overlapping_calls")
+        from ..interleave import check_two_switches
+
+        ks_ = case["preempt"]
+        pairs_ = [(ks_[i], ks_[(i + 1) % len(ks_)]) for i in range(len(ks_))] + [(ks_[0], j) for j in (5, 20, 45, 80, -6, -3)]
+        if check_two_switches(lambda: taus.tau_energy(beta, log_e, u), lambda: other.tau_energy(b_r, e_r, u_r), pairs_, f"Taus.tau_energy ({n} events, {'two objects' if other is not taus else 'one object'})"):
+            labels.add("overlapping_calls_two_switches")
     if valid.any() and low.any() and high.any():
         labels.add("mixed_angles")
     if node_hit.any():
